@@ -100,4 +100,32 @@ theorem entry_points_build_a_fresh_tree :
     lookupL "initializeTree" Facts.initTree =
       ["if:cfg.massive", "return", "call:newTreePipeline", "return", "call:newTreeSimple"] := by decide
 
+/-- operation of *treePipeline ↦ the stages it starts, its helpers and the splitter / generator constructors, in source order -/
+def expectedPipelineCalls : List (String × List String) :=
+  [("mkdir", ["split", "newRootGeneratorPipeline", "grower.enableValidation", "grower.grow", "spreader.spread", "t.handlePipelineErr", "mkdirer.mkdir", "t.handlePipelineErr"]),
+   ("mkdirProgrammably", ["grower.enableValidation", "grower.grow", "spreader.spread", "t.handlePipelineErr", "mkdirer.mkdir", "t.handlePipelineErr"]),
+   ("output", ["split", "newRootGeneratorPipeline", "grower.grow", "spreader.spread", "t.handlePipelineErr"]),
+   ("outputProgrammably", ["grower.grow", "spreader.spread", "t.handlePipelineErr"]),
+   ("verify", ["grower.enableValidation", "split", "newRootGeneratorPipeline", "grower.grow", "verifier.verify", "t.handlePipelineErr"]),
+   ("verifyProgrammably", ["grower.enableValidation", "grower.grow", "verifier.verify", "t.handlePipelineErr"]),
+   ("walk", ["split", "newRootGeneratorPipeline", "grower.grow", "walker.walk", "t.handlePipelineErr"]),
+   ("walkProgrammably", ["grower.grow", "walker.walk", "t.handlePipelineErr"])]
+
+/-- `a` is called, and before the first call of `b` -/
+def calledBefore (a b : String) (l : List String) : Bool := l.contains a && l.idxOf a < l.idxOf b
+
+theorem massive_operations_are_as_expected : Facts.treePipelineCalls = expectedPipelineCalls := by decide
+
+/-- in the massive tree too: the operations that create or compare directories enable validation before the grower
+    stage is started, every operation starts the grower before the stage that consumes its roots, and waits for the
+    stages' errors last -/
+theorem massive_operations_validate_then_grow_then_use :
+    ["mkdir", "mkdirProgrammably", "verify", "verifyProgrammably"].all
+      (fun op => calledBefore "grower.enableValidation" "grower.grow" (lookupL op Facts.treePipelineCalls)) = true ∧
+    [("mkdir", "mkdirer.mkdir"), ("mkdirProgrammably", "mkdirer.mkdir"), ("verify", "verifier.verify"),
+     ("verifyProgrammably", "verifier.verify"), ("walk", "walker.walk"), ("walkProgrammably", "walker.walk"),
+     ("output", "spreader.spread"), ("outputProgrammably", "spreader.spread")].all
+      (fun e => calledBefore "grower.grow" e.2 (lookupL e.1 Facts.treePipelineCalls) &&
+        (lookupL e.1 Facts.treePipelineCalls).getLast? == some "t.handlePipelineErr") = true := by decide
+
 end Gtree
